@@ -219,9 +219,15 @@ def _name_nodes(node, name):
     return [n for n in ast.walk(node) if isinstance(n, ast.Name) and n.id == name]
 
 
+_CONSUMERS = ('any', 'all', 'sum', 'min', 'max', 'tuple', 'list', 'sorted', 'set', 'frozenset')
+
+
 def _has_nested_scope_use(func, name):
+    # a generator handed straight to a function that consumes it at once is evaluated there and then: not a deferred scope
+    immediate = {id(c.args[0]) for c in ast.walk(func) if isinstance(c, ast.Call) and len(c.args) == 1 and not c.keywords and isinstance(c.args[0], ast.GeneratorExp)
+                 and (isinstance(c.func, ast.Name) and c.func.id in _CONSUMERS or isinstance(c.func, ast.Attribute) and c.func.attr == 'join')}
     for n in ast.walk(func):
-        if n is not func and isinstance(n, (ast.FunctionDef, ast.AsyncFunctionDef, ast.Lambda, ast.GeneratorExp, ast.ClassDef)):
+        if n is not func and isinstance(n, (ast.FunctionDef, ast.AsyncFunctionDef, ast.Lambda, ast.GeneratorExp, ast.ClassDef)) and id(n) not in immediate:
             if _name_nodes(n, name):
                 return True
     return False
@@ -632,6 +638,9 @@ def _stmt_exprs(st):
         return [st.iter]
     if isinstance(st, ast.Assert):
         return [st.test]
+    if isinstance(st, (ast.With, ast.AsyncWith)):
+        # context expressions are evaluated in order on entry, once
+        return [it.context_expr for it in st.items]
     return None
 
 
@@ -666,6 +675,16 @@ def _split_ifexp(func):
     changed = False
     for owner, block in _all_blocks(func):
         for i, st in enumerate(block):
+            if isinstance(st, ast.For) and isinstance(st.iter, ast.IfExp) and is_pure(st.iter.test):
+                # the iterable is chosen once, before the loop: two loops under the test
+                a, b = copy.deepcopy(st), copy.deepcopy(st)
+                a.iter, b.iter = a.iter.body, b.iter.orelse
+                new = ast.If(test=copy.deepcopy(st.iter.test), body=[a], orelse=[b])
+                ast.copy_location(new, st)
+                ast.fix_missing_locations(new)
+                block[i] = new
+                changed = True
+                continue
             if not isinstance(st, (ast.Return, ast.Assign, ast.Expr, ast.AugAssign, ast.Raise)):
                 continue
             if isinstance(st, ast.Assign) and len(st.targets) == 1 and isinstance(st.targets[0], ast.Name):
@@ -716,6 +735,19 @@ def return_of_assignment(func):
     return changed
 
 
+def _first_iter_chain(comp, use):
+    """use is the iterable of the first `for` of comp, or of the first `for` of the comprehension that is that iterable, ...:
+    such an expression is evaluated exactly once, before anything else of the comprehension"""
+    it = comp.generators[0].iter
+    while True:
+        if it is use:
+            return True
+        if isinstance(it, (ast.ListComp, ast.SetComp, ast.DictComp)):
+            it = it.generators[0].iter
+        else:
+            return False
+
+
 def inline_next_use(func):
     """`t = E` (E may have side effects) followed immediately by a statement that reads t once, before anything else with side
     effects is evaluated: E is written in place of t."""
@@ -732,7 +764,7 @@ def inline_next_use(func):
                     exprs = _stmt_exprs(nx)
                     if exprs is not None and any(any(n is use for n in ast.walk(e)) for e in exprs) and not _impure_before(nx, use) \
                             and not any(isinstance(a, (ast.IfExp, ast.BoolOp, ast.Lambda, ast.GeneratorExp, ast.ListComp, ast.SetComp, ast.DictComp)) and any(n is use for n in ast.walk(a)) and a is not use
-                                        and not (isinstance(a, (ast.ListComp, ast.SetComp, ast.DictComp)) and a.generators[0].iter is use)
+                                        and not (isinstance(a, (ast.ListComp, ast.SetComp, ast.DictComp)) and _first_iter_chain(a, use))
                                         for e in exprs for a in ast.walk(e)):
                         _replace_node(nx, use, st.value)
                         del block[i]
@@ -893,14 +925,15 @@ def loops_to_comprehensions(func):
         i = 0
         while i + 1 < len(block):
             a, lp = block[i], block[i + 1]
-            if isinstance(a, ast.Assign) and len(a.targets) == 1 and isinstance(a.targets[0], ast.Name) and isinstance(a.value, ast.List) \
+            is_set = isinstance(a, ast.Assign) and isinstance(a.value, ast.Call) and isinstance(a.value.func, ast.Name) and a.value.func.id == 'set' and not a.value.args and not a.value.keywords
+            if isinstance(a, ast.Assign) and len(a.targets) == 1 and isinstance(a.targets[0], ast.Name) and (isinstance(a.value, ast.List) or is_set) \
                     and isinstance(lp, ast.For) and not lp.orelse and len(lp.body) == 1:
                 x = a.targets[0].id
                 body = lp.body[0]
                 cond = None
                 if isinstance(body, ast.If) and not body.orelse and len(body.body) == 1:
                     cond, body = body.test, body.body[0]
-                if isinstance(body, ast.Expr) and isinstance(body.value, ast.Call) and isinstance(body.value.func, ast.Attribute) and body.value.func.attr == 'append' \
+                if isinstance(body, ast.Expr) and isinstance(body.value, ast.Call) and isinstance(body.value.func, ast.Attribute) and body.value.func.attr == ('add' if is_set else 'append') \
                         and isinstance(body.value.func.value, ast.Name) and body.value.func.value.id == x and len(body.value.args) == 1 and not body.value.keywords:
                     elt = body.value.args[0]
                     tnames = {n.id for n in ast.walk(lp.target) if isinstance(n, ast.Name)}
@@ -908,13 +941,77 @@ def loops_to_comprehensions(func):
                     later = [n for s_ in block[i + 2:] for n in ast.walk(s_) if isinstance(n, ast.Name) and n.id in tnames]
                     outer_uses = [n for n in ast.walk(func) if isinstance(n, ast.Name) and n.id in tnames and not any(n is y for y in ast.walk(lp))]
                     if not uses_x and not later and not outer_uses:
-                        comp = ast.ListComp(elt=elt, generators=[ast.comprehension(target=lp.target, iter=lp.iter, ifs=[cond] if cond is not None else [], is_async=0)])
-                        a.value = comp if not a.value.elts else ast.BinOp(left=a.value, op=ast.Add(), right=comp)
+                        gens = [ast.comprehension(target=lp.target, iter=lp.iter, ifs=[cond] if cond is not None else [], is_async=0)]
+                        if is_set:
+                            a.value = ast.SetComp(elt=elt, generators=gens)
+                        else:
+                            comp = ast.ListComp(elt=elt, generators=gens)
+                            a.value = comp if not a.value.elts else ast.BinOp(left=a.value, op=ast.Add(), right=comp)
                         ast.fix_missing_locations(a)
                         del block[i + 1]
                         changed = True
                         continue
             i += 1
+    return changed
+
+
+def sink_into_branches(func):
+    """`t = E` (E with side effects, t defined only here) directly before `if c:` with c free of side effects, not reading t and
+    not reading anything E may change: the assignment is the first statement of both branches (then `inline_next_use` can
+    write E where t is used once per branch)"""
+    changed = False
+    params, stores, loads = _defs_and_uses(func)
+    for owner, block in _all_blocks(func):
+        i = 0
+        while i + 1 < len(block):
+            st, nx = block[i], block[i + 1]
+            if isinstance(st, ast.Assign) and len(st.targets) == 1 and isinstance(st.targets[0], ast.Name) and isinstance(nx, ast.If) and nx.orelse:
+                t = st.targets[0].id
+                if t not in params and len(stores.get(t, [])) == 1 and not is_pure(st.value) and not _has_nested_scope_use(func, t) and is_pure(nx.test) \
+                        and not _name_nodes(nx.test, t) and not interferes(ast.Expr(value=st.value), read_chains(nx.test)) \
+                        and len(_name_nodes(ast.Module(body=nx.body, type_ignores=[]), t)) == 1 and len(_name_nodes(ast.Module(body=nx.orelse, type_ignores=[]), t)) == 1 \
+                        and len(_name_nodes(nx.body[0], t)) == 1 and len(_name_nodes(nx.orelse[0], t)) == 1 \
+                        and all(_stmt_exprs(b0) is not None and not _impure_before(b0, _name_nodes(b0, t)[0]) for b0 in (nx.body[0], nx.orelse[0])) \
+                        and not any(_name_nodes(s_, t) for s_ in block[i + 2:]):
+                    # (only where it lets the value be written in place of the name: used once, first thing, in each branch)
+                    a, b = copy.deepcopy(st), copy.deepcopy(st)
+                    nx.body.insert(0, a)
+                    nx.orelse.insert(0, b)
+                    del block[i]
+                    # the two copies are two definitions now: give the second its own name
+                    new = t + '__s'
+                    b.targets[0].id = new
+                    ren = _Rename({t: new})
+                    for s_ in nx.orelse[1:]:
+                        ren.visit(s_)
+                    params, stores, loads = _defs_and_uses(func)
+                    changed = True
+                    continue
+            i += 1
+    return changed
+
+
+def loops_to_any(func):
+    """`for v in X: if P: return R` (P free of side effects, R a constant, v not used afterwards) is `if any([P for v in X]): return R`"""
+    changed = False
+    for owner, block in _all_blocks(func):
+        for i, lp in enumerate(block):
+            if not (isinstance(lp, ast.For) and not lp.orelse and len(lp.body) == 1 and isinstance(lp.body[0], ast.If) and not lp.body[0].orelse
+                    and len(lp.body[0].body) == 1 and isinstance(lp.body[0].body[0], ast.Return)):
+                continue
+            test, ret = lp.body[0].test, lp.body[0].body[0]
+            if not (ret.value is None or isinstance(ret.value, ast.Constant)) or not is_pure(test) or not is_pure(lp.iter):
+                continue
+            tnames = {n.id for n in ast.walk(lp.target) if isinstance(n, ast.Name)}
+            outer = [n for n in ast.walk(func) if isinstance(n, ast.Name) and n.id in tnames and not any(n is y for y in ast.walk(lp))]
+            if outer:
+                continue
+            comp = ast.ListComp(elt=test, generators=[ast.comprehension(target=lp.target, iter=lp.iter, ifs=[], is_async=0)])
+            new = ast.If(test=ast.Call(func=ast.Name(id='any', ctx=ast.Load()), args=[comp], keywords=[]), body=[ret], orelse=[])
+            ast.copy_location(new, lp)
+            ast.fix_missing_locations(new)
+            block[i] = new
+            changed = True
     return changed
 
 
@@ -1092,6 +1189,8 @@ def inline_temps(func):
                         continue
                     up = _stmt_path(func, us[0]) or []
                     dp = _stmt_path(func, st) or []
+                    if up and isinstance(up[-1][2], (ast.For, ast.AsyncFor)) and any(n is us[0] for n in ast.walk(up[-1][2].iter)):
+                        up = up[:-1]        # the iterable of a for statement is evaluated once, before the loop
                     loops_u = [id(x[2]) for x in up if isinstance(x[2], (ast.For, ast.AsyncFor, ast.While))]
                     loops_d = [id(x[2]) for x in dp if isinstance(x[2], (ast.For, ast.AsyncFor, ast.While))]
                     if loops_u != loops_d[:len(loops_u)] or len(loops_u) != len(loops_d):
@@ -1433,26 +1532,46 @@ def split_webs(func, counter):
 
 
 def copy_propagate(func):
-    """`x = p` (p a parameter or local that is not used afterwards, x defined only here): x is p under another name"""
+    """`x = p` (p a parameter or local that is not read or written afterwards on any path, x a local that does not occur
+    before): x is p under another name, whatever else is assigned to x later (x takes over p's storage)"""
     changed = False
     params, stores, loads = _defs_and_uses(func)
-    body = func.body
-    for i, st in enumerate(list(body)):
-        if isinstance(st, ast.Assign) and len(st.targets) == 1 and isinstance(st.targets[0], ast.Name) and isinstance(st.value, ast.Name):
+    for owner, block in _all_blocks(func):
+        for i, st in enumerate(list(block)):
+            if not (isinstance(st, ast.Assign) and len(st.targets) == 1 and isinstance(st.targets[0], ast.Name) and isinstance(st.value, ast.Name)):
+                continue
             x, p = st.targets[0].id, st.value.id
             if x == p or x in params:
                 continue
-            # p must not occur after this statement; x must not occur before it
-            later_p = [n for s in body[i + 1:] for n in ast.walk(s) if isinstance(n, ast.Name) and n.id == p]
-            earlier_x = [n for s in body[:i] for n in ast.walk(s) if isinstance(n, ast.Name) and n.id == x]
-            if later_p or earlier_x or _has_nested_scope_use(func, x) or _has_nested_scope_use(func, p):
+            if _has_nested_scope_use(func, x) or _has_nested_scope_use(func, p):
+                continue
+            inside = {id(n) for s_ in block[i:] for n in ast.walk(s_)}
+            # every occurrence of x lies in this block from this statement on
+            if any(id(n) not in inside for n in _name_nodes(func, x)):
+                continue
+            # p does not occur later in this block ...
+            if any(_name_nodes(s_, p) for s_ in block[i + 1:]):
+                continue
+            # ... nor after it: either the block always leaves, or p occurs nowhere behind the enclosing statements; a block
+            # inside a loop may be entered again, so p must then not occur in the loop at all apart from this statement
+            ok = True
+            if block is not func.body:
+                path = _stmt_path(func, st)
+                if path is None:
+                    continue
+                if any(isinstance(a_, (ast.For, ast.AsyncFor, ast.While)) for _b, _i, a_ in path[:-1]):
+                    ok = False
+                elif not _always_leaves(block):
+                    for blk, idx, _a in path[:-1]:
+                        if any(_name_nodes(s_, p) for s_ in blk[idx + 1:]):
+                            ok = False
+            if not ok:
                 continue
             ren = _Rename({x: p})
-            for s in body[i + 1:]:
-                ren.visit(s)
-            body.remove(st)
-            changed = True
-            break
+            for s_ in block[i + 1:]:
+                ren.visit(s_)
+            block.remove(st)
+            return True
     return changed
 
 
@@ -1513,6 +1632,20 @@ def cx(e):
         return f'(Not {cx(e.operand)})'
     if isinstance(e, ast.UnaryOp):
         return f'({type(e.op).__name__} {cx(e.operand)})'
+    if isinstance(e, ast.BinOp) and isinstance(e.op, ast.Mult):
+        # products are flattened and sorted: exact for integers, for floats the difference is rounding in the last place
+        # (DESIGN.md 8.9); a string / list literal operand keeps the written form (repetition is not a product of numbers)
+        leaves = []
+
+        def flat(x):
+            if isinstance(x, ast.BinOp) and isinstance(x.op, ast.Mult):
+                flat(x.left)
+                flat(x.right)
+            else:
+                leaves.append(x)
+        flat(e)
+        if not any(isinstance(x, (ast.List, ast.Tuple, ast.JoinedStr)) or isinstance(x, ast.Constant) and isinstance(x.value, (str, bytes)) for x in leaves):
+            return '(Mult ' + ' '.join(sorted(cx(x) for x in leaves)) + ')'
     if isinstance(e, ast.BinOp):
         a, b = cx(e.left), cx(e.right)
         if isinstance(e.op, _COMMUTE) and b < a:
@@ -1569,6 +1702,25 @@ def cx(e):
         return '(fstr ' + ' '.join(parts) + ')'
     if isinstance(e, ast.FormattedValue):
         return f'{{{cx(e.value)}!{e.conversion}:{cx(e.format_spec)}}}'
+    if isinstance(e, (ast.ListComp, ast.SetComp, ast.GeneratorExp, ast.DictComp)) and not getattr(e, '_kappa', False):
+        # the variables a comprehension binds are its own: numbered by nesting depth and position, whatever they are called
+        bound = []
+        for g in e.generators:
+            for n in ast.walk(g.target):
+                if isinstance(n, ast.Name) and n.id not in bound:
+                    bound.append(n.id)
+        _COMP_DEPTH[0] += 1
+        try:
+            ren = {b: f'~{_COMP_DEPTH[0]}.{i}' for i, b in enumerate(bound)}
+            e2 = copy.deepcopy(e)
+            first_iter = e2.generators[0].iter
+            e2.generators[0].iter = ast.Constant(value=None)
+            _Rename(ren).visit(e2)
+            e2.generators[0].iter = first_iter
+            e2._kappa = True
+            return cx(e2)
+        finally:
+            _COMP_DEPTH[0] -= 1
     if isinstance(e, (ast.ListComp, ast.SetComp, ast.GeneratorExp)):
         gens = ' '.join(f'for {cx(g.target)} in {cx(g.iter)}' + ''.join(f' if {cx(i)}' for i in g.ifs) for g in e.generators)
         return f'({type(e).__name__} {cx(e.elt)} {gens})'
@@ -1643,6 +1795,29 @@ def _atoms(cond, then, other, budget):
         if isinstance(cond.ops[0], ast.LtE):
             c2 = ast.Compare(left=cond.comparators[0], ops=[ast.Lt()], comparators=[cond.left])
             return _atoms(c2, other, then, budget)
+    if isinstance(cond, ast.Call) and isinstance(cond.func, ast.Name) and cond.func.id == 'isinstance' and len(cond.args) == 2 and not cond.keywords \
+            and isinstance(cond.args[1], ast.Tuple) and cond.args[1].elts and is_pure(cond.args[0]):
+        # isinstance(x, (A, B)) is isinstance(x, A) or isinstance(x, B)
+        parts = [ast.Call(func=cond.func, args=[cond.args[0], t], keywords=[]) for t in cond.args[1].elts]
+        return _atoms(ast.BoolOp(op=ast.Or(), values=parts), then, other, budget)
+    if isinstance(cond, ast.Call) and isinstance(cond.func, ast.Name) and cond.func.id == 'bool' and len(cond.args) == 1 and not cond.keywords:
+        return _atoms(cond.args[0], then, other, budget)
+    if isinstance(cond, ast.Call) and isinstance(cond.func, ast.Name) and cond.func.id in ('all', 'any') and len(cond.args) == 1 and not cond.keywords:
+        arg = cond.args[0]
+        if not isinstance(arg, (ast.GeneratorExp, ast.ListComp)):
+            v = ast.Name(id='_each', ctx=ast.Load())
+            arg = ast.ListComp(elt=v, generators=[ast.comprehension(target=ast.Name(id='_each', ctx=ast.Store()), iter=arg, ifs=[], is_async=0)])
+        if cond.func.id == 'all':
+            # all(P) is not any(not P)
+            neg = _negate(arg.elt) or ast.UnaryOp(op=ast.Not(), operand=arg.elt)
+            a2 = ast.Call(func=ast.Name(id='any', ctx=ast.Load()), args=[ast.ListComp(elt=neg, generators=arg.generators)], keywords=[])
+            return _mk_cond_leaf(a2, other, then)
+        a2 = ast.Call(func=ast.Name(id='any', ctx=ast.Load()), args=[ast.ListComp(elt=arg.elt, generators=arg.generators)], keywords=[])
+        return _mk_cond_leaf(a2, then, other)
+    if isinstance(cond, ast.Call) and isinstance(cond.func, ast.Name) and cond.func.id == 'len' and len(cond.args) == 1 and not cond.keywords:
+        # a length is true exactly when it is not 0
+        c2 = ast.Compare(left=cond, ops=[ast.Eq()], comparators=[ast.Constant(value=0)])
+        return _atoms(c2, other, then, budget)
     if isinstance(cond, ast.Constant) and not isinstance(cond.value, (str, bytes)):
         return then if cond.value else other
     if isinstance(cond, ast.IfExp):
@@ -1651,7 +1826,44 @@ def _atoms(cond, then, other, budget):
         # a list / dict / set / tuple / string is false exactly when it is empty
         c2 = ast.Compare(left=ast.Call(func=ast.Name(id='len', ctx=ast.Load()), args=[cond], keywords=[]), ops=[ast.Eq()], comparators=[ast.Constant(value=0)])
         return _atoms(c2, other, then, budget)
-    return (('if', cx(cond), then, other),)
+    return _mk_cond_leaf(cond, then, other)
+
+
+def _mk_cond_leaf(cond, then, other):
+    c = cx(cond)
+    if is_pure(cond):
+        _PURE_ATOMS.add(c)
+    return _mk_if(c, then, other)
+
+
+_PURE_ATOMS = set()
+_COMP_DEPTH = [0]
+
+
+def _assume(tree, c, val):
+    """the tree with the side-effect-free test c known to be val, as far as only side-effect-free tests stand before it"""
+    if len(tree) == 1 and tree[0][0] == 'if' and tree[0][1] in _PURE_ATOMS:
+        _, a, t, e = tree[0]
+        if a == c:
+            return _assume(t if val else e, c, val)
+        t2, e2 = _assume(t, c, val), _assume(e, c, val)
+        if t2 is not t or e2 is not e:
+            return t2 if t2 == e2 else (('if', a, t2, e2),)
+    return tree
+
+
+def _mk_if(c, then, other):
+    """decision node; two side-effect-free tests that are both evaluated on every path are put in one order (the smaller
+    text outside), and a side-effect-free test whose branches are identical is dropped"""
+    if c in _PURE_ATOMS:
+        then, other = _assume(then, c, True), _assume(other, c, False)
+    if c in _PURE_ATOMS and then == other:
+        return then
+    if c in _PURE_ATOMS and len(then) == 1 and len(other) == 1 and then[0][0] == 'if' and other[0][0] == 'if' and then[0][1] == other[0][1] \
+            and then[0][1] in _PURE_ATOMS and then[0][1] < c:
+        b = then[0][1]
+        return _mk_if(b, _mk_if(c, then[0][2], other[0][2]), _mk_if(c, then[0][3], other[0][3]))
+    return (('if', c, then, other),)
 
 
 LOOP_END = (('continue',),)              # falling off the end of a loop body is `continue`
@@ -1672,14 +1884,33 @@ def seq(stmts, k, budget):
     st = stmts[0]
     if isinstance(st, ast.Pass):
         return seq(stmts[1:], k, budget)
+    if isinstance(st, ast.Return) and st.value is not None and _is_boolean(st.value) and not (isinstance(st.value, ast.Constant)):
+        # returning a truth value is returning True on one branch and False on the other
+        return _atoms(st.value, (('return', 'cTrue'),), (('return', 'cFalse'),), budget)
     if isinstance(st, TERMINATORS):
         return (_cstmt(st, budget),)
     if isinstance(st, ast.Try) and not st.finalbody:
         # what follows a try statement follows its else-part on success and each handler that falls through; written that
         # way `else:` clauses and statements placed after the try look the same
         rest = seq(stmts[1:], k, budget)
-        hs = tuple((cx(h.type), h.name or '', seq(h.body, rest, budget)) for h in st.handlers)
-        return (('try', seq(st.body, (), budget), hs, seq(st.orelse, rest, budget)),)
+        body, orelse = list(st.body), list(st.orelse)
+        if body and (isinstance(body[-1], (ast.Continue, ast.Break)) or isinstance(body[-1], ast.Return) and (body[-1].value is None or isinstance(body[-1].value, (ast.Constant, ast.Name)))):
+            # a final statement that cannot raise is not protected by the handlers: it belongs to the else-part
+            body, orelse = body[:-1], [body[-1]]
+        hs = tuple((cx(h.type), (h.name or '') if h.name and any(isinstance(n, ast.Name) and n.id == h.name for b_ in h.body for n in ast.walk(b_)) else '',
+                    seq(h.body, rest, budget)) for h in st.handlers)
+        return (('try', seq(body, (), budget), hs, seq(orelse, rest, budget)),)
+    if isinstance(st, (ast.With, ast.AsyncWith)):
+        rest = seq(stmts[1:], k, budget)
+        items = tuple((cx(i.context_expr), cx(i.optional_vars)) for i in st.items)
+        simple = len(rest) == 1 and rest[0][0] == 'return' and '(' not in rest[0][1] and '[' not in rest[0][1]
+        body = seq(st.body, rest if simple else (), budget)
+        budget[0] -= 1
+        if simple or _tree_leaves(body):
+            # `return name` after the block is the block's own last statement (the value is computed inside either way);
+            # nothing follows a block that always leaves
+            return (('with', items, body),)
+        return (('with', items, body),) + rest
     if isinstance(st, ast.If):
         # the statements after an `if` are the tail of both of its branches (a branch that always leaves drops its tail):
         # the result does not depend on whether the source wrote else-branches, guard clauses or nested ifs
@@ -1693,6 +1924,17 @@ def seq(stmts, k, budget):
         budget[0] -= 1
         return (('return', cx(st.value)),)
     return (_cstmt(st, budget),) + rest
+
+
+def _tree_leaves(tree):
+    if not tree:
+        return False
+    last = tree[-1]
+    if last[0] in ('return', 'raise', 'continue', 'break'):
+        return True
+    if last[0] == 'if':
+        return _tree_leaves(last[2]) and _tree_leaves(last[3])
+    return False
 
 
 def _cstmt(st, budget):
@@ -1908,6 +2150,8 @@ def canonical(func, helpers=None, consts=None, sized=None, cls_name=None, props=
             e = inline_next_use(f)
             g = drop_dead_locals(f)
             h = loops_to_comprehensions(f)
+            h = loops_to_any(f) or h
+            h = sink_into_branches(f) or h
             k = assignments_to_ifexp(f)
             m = return_of_assignment(f)
             n_ = enumerate_to_index(f)
@@ -1921,6 +2165,7 @@ def canonical(func, helpers=None, consts=None, sized=None, cls_name=None, props=
         _Rename({n: f'{MARK}{n}{MARK}' for n in local_names}).visit(f)
         _NO_CLOSURES[0] = not any(isinstance(n, (ast.FunctionDef, ast.AsyncFunctionDef, ast.Lambda, ast.ClassDef, ast.Global, ast.Nonlocal)) for n in ast.walk(f) if n is not f)
         _NO_CLOSURES[1] = tuple(params)
+        _PURE_ATOMS.clear()
         tree = seq(f.body, FUNC_END, [60000])
         text = repr(tree)
         seen = {}
